@@ -560,6 +560,13 @@ def _gen_office():
         out["gen/plain.docx"] = ooxml.render_docx(doc(4))
         out["gen/plain.odt"] = odf.render_odt(doc(5))
         out["gen/plain.odp"] = odf.render_odp(doc(6))
+        # packages without meta.xml, extracted with and without a path: a shared "no metadata" object would carry the path over
+        out["gen/nometa-a.odt"] = odf.render_odt(doc(7), opts={"no_meta": True})
+        out["gen/nopath-nometa-b.odt"] = odf.render_odt(doc(8), opts={"no_meta": True})
+        out["gen/nometa-a.odp"] = odf.render_odp(doc(9), opts={"no_meta": True})
+        out["gen/nopath-nometa-b.odp"] = odf.render_odp(doc(10), opts={"no_meta": True})
+        out["gen/nopath-plain.docx"] = ooxml.render_docx(doc(11))
+        out["gen/nopath-plain.pptx"] = ooxml.render_pptx(doc(12))
     except Exception as e:  # noqa
         raise RuntimeError(f"generator for the office pairs failed: {type(e).__name__}: {e}")
     return out
@@ -588,7 +595,8 @@ def build_pool() -> dict[str, bytes]:
 
 PAIRS = [("gen/cid-a.pdf", "gen/cid-b.pdf"), ("gen/aes256r5-empty.pdf", "gen/aes128-empty.pdf"), ("gen/cid-c.pdf", "gen/cid-a.pdf"), ("gen/comments.pptx", "gen/plain.pptx"),
          ("gen/comments.docx", "gen/plain.docx"), ("modern_ms/pptx_table.pptx", "gen/plain.pptx"), ("open_office/slide_with_notes.odp", "gen/plain.odp"), ("open_office/headings.odt", "gen/plain.odt"), ("gen/macosx-report.zip", "gen/notes-report.zip"), ("gen/hidden-dir.zip", "gen/visible-dir.zip"),
-         ("archives/test_archive.zip", "gen/notes-report.zip")]
+         ("archives/test_archive.zip", "gen/notes-report.zip"), ("gen/nometa-a.odt", "gen/nopath-nometa-b.odt"), ("gen/nometa-a.odp", "gen/nopath-nometa-b.odp"),
+         ("gen/plain.docx", "gen/nopath-plain.docx"), ("gen/plain.pptx", "gen/nopath-plain.pptx")]
 
 
 def ext_of(name: str) -> str:
@@ -600,11 +608,11 @@ def extract_digest(raw: bytes, name: str, mode: str = "exhaust") -> str:
     from sharepoint2text.parsing.exceptions import ExtractionError
     from sharepoint2text.parsing.extractors.serialization import serialize_extraction
     from sharepoint2text.parsing.router import get_extractor
-    path = "iso." + ext_of(name)
+    path = "/srv/in/" + name         # every pool document has its own path; "nopath" documents are extracted without one
     h = hashlib.sha256()
     n = 0
     try:
-        gen = get_extractor(path)(io.BytesIO(raw), path)
+        gen = get_extractor("iso." + ext_of(name))(io.BytesIO(raw), None if "nopath-" in name else path)
         for r in gen:
             h.update(json.dumps(serialize_extraction(r), sort_keys=True, default=str).encode())
             n += 1
